@@ -11,6 +11,7 @@ import (
 	"context"
 	"encoding/json"
 	"fmt"
+	"io"
 	"math/rand/v2"
 	"net/http/httptest"
 	"path/filepath"
@@ -32,13 +33,14 @@ import (
 )
 
 type event struct {
-	Kind   string        `json:"kind"` // change, refresh, sleep, probe, lookup
-	Name   string        `json:"name,omitempty"`
-	Back   bool          `json:"back,omitempty"`
-	D      time.Duration `json:"d,omitempty"`
-	Fail   []int         `json:"fail_requests,omitempty"` // indices (within the round) of requests that fail
-	Hold   []int         `json:"hold_requests,omitempty"` // indices of requests held for D, with a change of Name in the middle
-	Result string        `json:"result,omitempty"`
+	Kind     string        `json:"kind"` // change, refresh, sleep, probe, lookup
+	Name     string        `json:"name,omitempty"`
+	Back     bool          `json:"back,omitempty"`
+	D        time.Duration `json:"d,omitempty"`
+	Fail     []int         `json:"fail_requests,omitempty"` // indices (within the round) of requests that fail
+	FailKind string        `json:"fail_kind,omitempty"`
+	Hold     []int         `json:"hold_requests,omitempty"` // indices of requests held for D, with a change of Name in the middle
+	Result   string        `json:"result,omitempty"`
 }
 
 type world struct {
@@ -153,7 +155,7 @@ func TestC11(t *testing.T) {
 		realServer(t, r)
 	}
 	r.Require("polls_ok", "polls_failed", "changes_forward", "changes_backward", "changes_inside_window", "expired_with_handle_polls",
-		"cadence_rounds", "cadence_cases_with_slow_service", "parked_cache_write_cases", "ticker_overlap_cases", "coalesced_refreshes", "coalesced_with_cancelled_leader", "real_server_refreshes", "final_convergence_checks")
+		"cadence_rounds", "cadence_cases_with_slow_service", "parked_cache_write_cases", "ticker_overlap_cases", "coalesced_refreshes", "coalesced_with_cancelled_leader", "coalesced_after_a_joiner_gave_up", "real_server_refreshes", "final_convergence_checks")
 	r.Rule("A: seeded histories of 8-25 events over 2-5 secrets (declared, looked-up, expiry-aged with a live unread handle): service changes (new version / re-activate an older one / bursts), Refresh with per-request failure and hold scripts (service changes inside the held window), sleeps up to several expiry ages, handle probes; oracle after every Refresh on the cache payload and at probes on handles. Plus cadence cases (background poller, instant service), coalescing cases (K refreshes while the first request is parked) and B: real server+client histories. Distinct = (event kind, poll outcome, backwards?, held?, expiry shape)")
 }
 
@@ -186,6 +188,7 @@ func bubbleCase(t *testing.T, r *evid.Run, idx int) {
 		cache := &fakesvc.MonCache{}
 		round, failedReqs := 0, 0
 		var failSet, holdSet map[int]bool
+		var failWith error = fakesvc.ErrInjected
 		var holdFor time.Duration
 		w.svc.Behave = func(q *fakesvc.Req) fakesvc.Behaviour {
 			if !q.Cond {
@@ -195,7 +198,7 @@ func bubbleCase(t *testing.T, r *evid.Run, idx int) {
 			round++
 			if failSet[i] {
 				failedReqs++
-				return fakesvc.Behaviour{Fail: fakesvc.ErrInjected}
+				return fakesvc.Behaviour{Fail: failWith}
 			}
 			if holdSet[i] {
 				return fakesvc.Behaviour{Delay: holdFor}
@@ -291,6 +294,12 @@ func bubbleCase(t *testing.T, r *evid.Run, idx int) {
 				nk := len(known)
 				failSet, holdSet = map[int]bool{}, map[int]bool{}
 				if rng.IntN(3) == 0 {
+					// what kind of failure the service (or something between it and the client) answers with
+					fk := rng.IntN(5)
+					failWith = []error{fakesvc.ErrInjected, fmt.Errorf("get: %w", api.ErrNotFound), fmt.Errorf("get: %w", api.ErrAccessDenied),
+						fmt.Errorf("request timed out inside the client: %w", context.DeadlineExceeded), io.ErrUnexpectedEOF}[fk]
+					r.Distinct(fmt.Sprintf("failure kind %d", fk))
+					ev.FailKind = failWith.Error()
 					for i := 0; i < nk; i++ {
 						if rng.IntN(2) == 0 {
 							failSet[i] = true
@@ -518,14 +527,40 @@ func coalesceCase(t *testing.T, r *evid.Run, idx int) {
 			errs[0] = st.Refresh(ctx0)
 		}()
 		synctest.Wait()
+		// some of the joiners have little patience and leave the shared round before it ends
+		giveUp := !cancelFirst && rng.IntN(2) == 0
+		impatient := map[int]bool{}
 		for i := 1; i < k; i++ {
 			wg.Add(1)
+			jctx := context.Background()
+			if giveUp && i%2 == 1 {
+				var jc context.CancelFunc
+				jctx, jc = context.WithTimeout(jctx, time.Duration(1+rng.IntN(900))*time.Millisecond)
+				defer jc()
+				impatient[i] = true
+			}
 			go func(i int) {
 				defer wg.Done()
-				errs[i] = st.Refresh(context.Background())
+				errs[i] = st.Refresh(jctx)
 			}(i)
 		}
 		synctest.Wait() // every refresher is blocked: one inside the parked request, the rest on the shared flight
+		if giveUp {
+			time.Sleep(time.Second)
+			synctest.Wait() // the impatient ones are gone; the round they had joined is still in flight
+			late := 1 + rng.IntN(3)
+			for j := 0; j < late; j++ {
+				errs = append(errs, nil)
+				wg.Add(1)
+				go func(i int) { // arrives while the round is still in flight: joins it
+					defer wg.Done()
+					errs[i] = st.Refresh(context.Background())
+				}(len(errs) - 1)
+			}
+			synctest.Wait()
+			r.Count("coalesced_after_a_joiner_gave_up", 1)
+			r.Distinct("coalesce joiner-gave-up")
+		}
 		for _, n := range names {
 			svc.Set(n, 2, []byte(n+"2"))
 		}
@@ -562,11 +597,16 @@ func coalesceCase(t *testing.T, r *evid.Run, idx int) {
 		nreq := svc.NumRequests() - base
 		r.Count("coalesced_refreshes", k)
 		r.Distinct(fmt.Sprintf("coalesce names=%d", len(names)))
+		for _, n := range names {
+			if got := string(st.Secret(n).Get()); got != n+"2" {
+				r.Violation("nil-refresh-but-stale", idx, fmt.Sprintf("coalesce case %d: after the shared round %q yields %q (the service has had %q active since before the round ended)", idx, n, got, n+"2"), map[string]any{"log": svc.Log()})
+			}
+		}
 		if nreq != len(names) {
 			r.Violation("refreshes-not-coalesced", idx, fmt.Sprintf("coalesce case %d: %d overlapping Refresh calls over %d secrets caused %d requests (one round = %d)", idx, k, len(names), nreq, len(names)), map[string]any{"log": svc.Log()})
 		}
 		for i, e := range errs {
-			if e != nil {
+			if e != nil && !impatient[i] {
 				r.Violation("coalesced-refresh-error", idx, fmt.Sprintf("refresher %d got %v", i, e), nil)
 			}
 		}
